@@ -422,6 +422,9 @@ impl<'a> Tr<'a> {
             let a = self.expr(&c.args[0])?;
             return Ok(Some(format!("(Rs.Cow.{name} {a})")));
         }
+        if first == "String" && name == "new" && c.args.is_empty() {
+            return Ok(Some("([] : Bytes)".into()));
+        }
         if name != "new" || c.args.len() != 1 {
             return Ok(None);
         }
@@ -433,10 +436,28 @@ impl<'a> Tr<'a> {
         Ok(Some(format!("({l}.new {a})")))
     }
 
-    /// `ZstdDecoder::new(r).unwrap()`: `unwrap` of an `io::Result`
+    /// a pattern that names a translated integer constant (`spec::LOCAL_FILE_HEADER_SIGNATURE`)
+    pub(crate) fn t6r2_const_pat(&self, p: &Pat) -> Option<String> {
+        let path = match p {
+            Pat::Path(pp) => &pp.path,
+            _ => return None,
+        };
+        let n = path_last(path);
+        if self.reg.consts.contains(&n) && self.reg.const_ty.get(&n).map(|t| int_ty(t)).unwrap_or(false) {
+            Some(format!("Gen.{n}"))
+        } else {
+            None
+        }
+    }
+
+    /// `ZstdDecoder::new(r).unwrap()`: `unwrap` of an `io::Result`; `res.unwrap()` on a value of `Result` type
     pub(crate) fn t6r2_unwrap(&mut self, m: &ExprMethodCall) -> R<Option<String>> {
         if m.method != "unwrap" || !m.args.is_empty() {
             return Ok(None);
+        }
+        if self.type_of(&m.receiver).as_deref().and_then(split_except).is_some() {
+            let v = self.expr(&m.receiver)?;
+            return Ok(Some(self.bind_m(format!("Rs.unwrapRes {v}"))));
         }
         if let Expr::Call(c) = &*m.receiver {
             if let Expr::Path(p) = &*c.func {
